@@ -178,4 +178,480 @@ theorem split_good' {c c1 c2 : Chunk} {t : Int} {early : Bool} (hg : c.good = tr
   · rw [e2, hrid]
   · rw [e1]; exact hle
 
+/-- splitting at or beyond the end of a good chunk: everything stays left -/
+theorem split_at_stop {c c1 c2 : Chunk} {t : Int} {early : Bool} (hg : c.good = true) (ht : c.stop ≤ t)
+    (h : c.split t early = .ok (c1, c2)) : c1.stop = c.stop ∧ c1.rows = c.rows ∧ c2.rows = [] := by
+  obtain ⟨h0, hse⟩ := good_range hg
+  obtain ⟨d1, d2, t', hv, h1, h2⟩ := Chunk.split_ok_inv h
+  obtain ⟨-, -, -, -, f1e, f1r, -⟩ := mkChunk_fields h1
+  obtain ⟨-, -, -, -, -, f2r, -⟩ := mkChunk_fields h2
+  have hclamp : max (min t c.stop) c.start = c.stop := by omega
+  rcases splitData_cases hv with ⟨-, e1, e2, e3⟩ | ⟨hc, e1, e2, e3⟩ | ⟨-, hlt, -⟩ | hbad
+  · rw [f1e, f1r, f2r, e1, e2, e3, hclamp]; exact ⟨by omega, rfl, rfl⟩
+  · -- clamp = start = stop: a zero-duration chunk has no rows
+    have hz : c.start = c.stop := by omega
+    have hnil : c.rows = [] := by
+      cases hr : c.rows with
+      | nil => rfl
+      | cons r rs =>
+        have := good_rows_in hg r (by rw [hr]; simp)
+        omega
+    rw [f1e, f1r, f2r, e1, e2, e3, hclamp, hnil]; exact ⟨by omega, rfl, rfl⟩
+  · omega
+  · omega
+
+/-! ## Part B: invariants of the per-dependency state, preserved by every successful step -/
+
+/-- where a stream `c :: l` ends -/
+def endOf : Chunk → List Chunk → Int
+  | c, [] => c.stop
+  | _, d :: l => endOf d l
+
+theorem endOf_congr {b c : Chunk} (h : b.stop = c.stop) : ∀ l : List Chunk, endOf b l = endOf c l
+  | [] => h
+  | _ :: _ => rfl
+
+/-- the last chunk of `l` (if any) has positive duration -/
+def LastPos : List Chunk → Prop
+  | [] => True
+  | [d] => d.start < d.stop
+  | _ :: d :: l => LastPos (d :: l)
+
+/-- buffer and unfetched chunks form one law-abiding stream of run `rid` -/
+def GoodState (rid : String) (s : DepState) : Prop := Law (s.buf :: s.rem) ∧ s.buf.runId = some rid
+
+/-- input, buffer and unfetched chunks form one law-abiding stream of run `rid` -/
+def GoodPair (rid : String) (p : Chunk × DepState) : Prop :=
+  Law (p.1 :: p.2.buf :: p.2.rem) ∧ p.1.runId = some rid
+
+theorem law_stop_le_end : ∀ {l : List Chunk} {c : Chunk}, Law (c :: l) → c.stop ≤ endOf c l
+  | [], c, _ => by simp [endOf]
+  | d :: l, c, h => by
+    obtain ⟨_, h2, _, _, h5⟩ := law_cons_cons.1 h
+    have := law_stop_le_end h5
+    have := (good_range (law_head h5)).2
+    simp only [endOf]
+    omega
+
+/-- with a positive last chunk, a buffer that already reaches the end of the stream has fetched everything -/
+theorem rem_nil_of_reached : ∀ {l : List Chunk} {c : Chunk}, Law (c :: l) → LastPos l →
+    endOf c l ≤ c.stop → l = []
+  | [], _, _, _, _ => rfl
+  | [d], c, h, hp, he => by
+    obtain ⟨_, h2, _, _, _⟩ := law_cons_cons.1 h
+    simp only [endOf] at he
+    simp only [LastPos] at hp
+    omega
+  | d :: e :: l, c, h, hp, he => by
+    obtain ⟨_, h2, _, _, h5⟩ := law_cons_cons.1 h
+    have hd := (good_range (law_head h5)).2
+    have : e :: l = [] := rem_nil_of_reached (c := d) h5 hp (by simp only [endOf] at he ⊢; omega)
+    cases this
+
+theorem fetchUntil_good {t : Int} : ∀ {rem : List Chunk} {buf : Chunk} {rem' : List Chunk} {buf' : Chunk},
+    Law (buf :: rem) → fetchUntil t rem buf = .ok (rem', buf') →
+      Law (buf' :: rem') ∧ buf'.runId = buf.runId ∧ buf'.start = buf.start ∧ t ≤ buf'.stop ∧
+        endOf buf' rem' = endOf buf rem ∧ (LastPos rem → LastPos rem')
+  | [], buf, rem', buf', hl, h => by
+    unfold fetchUntil at h
+    split at h
+    · cases h
+    · injection h with h; injection h with h1 h2; subst h1 h2
+      exact ⟨hl, rfl, rfl, by omega, rfl, id⟩
+  | c :: rest, buf, rem', buf', hl, h => by
+    unfold fetchUntil at h
+    split at h
+    · split at h
+      · cases h
+      · rename_i b hb
+        obtain ⟨g1, a1, a2, a3, hl'⟩ := law_cons_cons.1 hl
+        obtain ⟨cg, cs, ce, _, ct, cr⟩ := concat_good_of_ok g1 (law_head hl') a1 a2 a3 hb
+        have hlb : Law (b :: rest) := law_replace_head hl' cg ce (by rw [ct, a2]) (by rw [cr, a3])
+        obtain ⟨i1, i2, i3, i4, i5, i6⟩ := fetchUntil_good hlb h
+        refine ⟨i1, by rw [i2, cr], by rw [i3, cs], i4, by rw [i5, endOf_congr ce rest]; rfl, fun hp => i6 ?_⟩
+        cases rest with
+        | nil => trivial
+        | cons d l => exact hp
+    · injection h with h; injection h with h1 h2; subst h1 h2
+      exact ⟨hl, rfl, rfl, by omega, rfl, id⟩
+
+/-- `prepDep` on a good state (the pacemaker's `t` is its own buffer end) -/
+theorem prepDep_good {rid : String} {t : Int} {fl : Bool} {s s' : DepState} {inp : Chunk}
+    (hs : GoodState rid s) (hpm : fl = true → s.buf.stop = t) (h : prepDep t fl s = .ok (inp, s')) :
+    GoodPair rid (inp, s') ∧ endOf s'.buf s'.rem = endOf s.buf s.rem ∧ (LastPos s.rem → LastPos s'.rem) ∧
+      inp.stop ≤ max t inp.start ∧
+      (endOf s.buf s.rem ≤ t → LastPos s.rem → s'.rem = [] ∧ s'.buf.rows = [] ∧ inp.stop = endOf s.buf s.rem) := by
+  unfold prepDep at h
+  split at h
+  · cases h
+  · rename_i rem buf hf
+    split at h
+    · cases h
+    · rename_i a b hsp
+      injection h with h; injection h with h1 h2; subst h1 h2
+      have hfu : Law (buf :: rem) ∧ buf.runId = s.buf.runId ∧ buf.start = s.buf.start ∧ t ≤ buf.stop ∧
+          endOf buf rem = endOf s.buf s.rem ∧ (LastPos s.rem → LastPos rem) := by
+        cases fl with
+        | true =>
+          simp only [if_true] at hf
+          injection hf with hf; injection hf with h1 h2; subst h1 h2
+          exact ⟨hs.1, rfl, rfl, by rw [hpm rfl]; omega, rfl, id⟩
+        | false =>
+          simp only [Bool.false_eq_true, if_false] at hf
+          exact fetchUntil_good hs.1 hf
+      obtain ⟨f1, f2, f3, f4, f5, f6⟩ := hfu
+      obtain ⟨g1, g2, p1, p2, p3, p4, p5, p6, p7, p8, p9⟩ := split_good' (law_head f1) hsp
+      have hlb : Law (b :: rem) := law_replace_head f1 g2 p3 p5 p7
+      refine ⟨⟨law_cons_cons.2 ⟨g1, p2, by rw [p4, p5], by rw [p6, p7], hlb⟩, by rw [p6, f2, hs.2]⟩, ?_, f6,
+        by rw [p1]; exact p9, ?_⟩
+      · show endOf b rem = _
+        rw [← f5]
+        cases rem with
+        | nil => simp only [endOf]; exact p3
+        | cons d l => rfl
+      · intro hend hlp
+        have hreach : endOf buf rem ≤ buf.stop := by omega
+        have hnil : rem = [] := rem_nil_of_reached f1 (f6 hlp) hreach
+        subst hnil
+        have hstop : buf.stop = endOf s.buf s.rem := by
+          simp only [endOf] at f5; exact f5
+        obtain ⟨q1, q2, q3⟩ := split_at_stop (law_head f1) (by omega : buf.stop ≤ t) hsp
+        exact ⟨rfl, q3, by rw [q1, hstop]⟩
+
+theorem trimDep_good {rid : String} {t : Int} {fl : Bool} {p p' : Chunk × DepState}
+    (hp : GoodPair rid p) (h : trimDep t fl p = .ok p') :
+    GoodPair rid p' ∧ endOf p'.2.buf p'.2.rem = endOf p.2.buf p.2.rem ∧ p'.2.rem = p.2.rem ∧
+      p'.1.rows.length ≤ p.1.rows.length ∧
+      (p.1.start ≤ t → t ≤ p.1.stop → p'.1.stop = t ∨ (p'.1.stop < t ∧ p'.1.rows.length < p.1.rows.length)) := by
+  unfold trimDep at h
+  split at h
+  · cases h
+  · rename_i a b hsp
+    split at h
+    · cases h
+    · rename_i c hc
+      injection h with h; subst h
+      obtain ⟨g0, a1, a2, a3, hl'⟩ := law_cons_cons.1 hp.1
+      obtain ⟨g1, g2, p1, p2, p3, p4, p5, p6, p7, p8, p9⟩ := split_good' g0 hsp
+      obtain ⟨cg, cs, ce, _, ct, cr⟩ := concat_good_of_ok g2 (law_head hl') (by rw [p3, a1])
+        (by rw [p5, a2]) (by rw [p7, a3]) hc
+      have hlc : Law (c :: p.2.rem) := law_replace_head hl' cg ce (by rw [ct, p5, a2]) (by rw [cr, p7, a3])
+      refine ⟨⟨law_cons_cons.2 ⟨g1, by rw [p2, cs], by rw [p4, ct, p5], by rw [p6, cr, p7], hlc⟩,
+        by rw [p6]; exact hp.2⟩, ?_, rfl, ?_, ?_⟩
+      · show endOf c p.2.rem = endOf p.2.buf p.2.rem
+        cases hr : p.2.rem with
+        | nil => simp only [endOf]; exact ce
+        | cons d l => rfl
+      · have : a.rows.length + b.rows.length = p.1.rows.length := by rw [← p8]; simp
+        show a.rows.length ≤ _
+        omega
+      · intro h1 h2
+        exact split_progress g0 h1 h2 hsp
+
+/-! ## Part C: totality -/
+
+/-! ### generic: `mapE`, sums, `minWith`, `allEq` -/
+
+theorem mapE_total {α β : Type} {f : α → Except Err β} :
+    ∀ {l : List α}, (∀ a ∈ l, ∃ b, f a = .ok b) → ∃ l', mapE f l = .ok l'
+  | [], _ => ⟨[], rfl⟩
+  | a :: as, H => by
+    obtain ⟨b, hb⟩ := H a (by simp)
+    obtain ⟨bs, hbs⟩ := mapE_total (l := as) (fun x hx => H x (List.mem_cons_of_mem _ hx))
+    exact ⟨b :: bs, by unfold mapE; rw [hb, hbs]⟩
+
+theorem mapE_append_ok {α β : Type} {f : α → Except Err β} :
+    ∀ {l1 l2 : List α} {r1 r2 : List β}, mapE f l1 = .ok r1 → mapE f l2 = .ok r2 →
+      mapE f (l1 ++ l2) = .ok (r1 ++ r2)
+  | [], _, r1, _, h1, h2 => by
+    unfold mapE at h1; injection h1 with h1; subst h1; simpa using h2
+  | a :: as, l2, r1, r2, h1, h2 => by
+    obtain ⟨b, bs, hb, hbs, rfl⟩ := mapE_cons_ok h1
+    have ih := mapE_append_ok hbs h2
+    show mapE f (a :: (as ++ l2)) = _
+    unfold mapE
+    rw [hb, ih]
+    rfl
+
+theorem Zip.mapE_total {α β : Type} {f : Bool → α → Except Err β} {z : Zip α}
+    (H : ∀ fl, ∀ a ∈ z.toList, ∃ b, f fl a = .ok b) : ∃ z', z.mapE f = .ok z' := by
+  obtain ⟨pre, h1⟩ := Align.mapE_total (f := f false) (l := z.pre)
+    (fun a ha => H false a (Zip.mem_toList.mpr (Or.inl ha)))
+  obtain ⟨pm, h2⟩ := H true z.pm (Zip.mem_toList.mpr (Or.inr (Or.inl rfl)))
+  obtain ⟨post, h3⟩ := Align.mapE_total (f := f false) (l := z.post)
+    (fun a ha => H false a (Zip.mem_toList.mpr (Or.inr (Or.inr ha))))
+  exact ⟨⟨pre, pm, post⟩, by unfold Zip.mapE; rw [h1, h2, h3]⟩
+
+/-- a step that ignores the pacemaker flag is a plain `mapE` over the dependency list -/
+theorem Zip.mapE_toList {α β : Type} {f : Bool → α → Except Err β} {z : Zip α} {z' : Zip β}
+    (hf : ∀ a, f true a = f false a) (h : z.mapE f = .ok z') :
+    Align.mapE (f false) z.toList = .ok z'.toList := by
+  obtain ⟨h1, h2, h3⟩ := Zip.mapE_ok h
+  rw [hf] at h2
+  have hc : Align.mapE (f false) (z.pm :: z.post) = .ok (z'.pm :: z'.post) := by
+    unfold Align.mapE; rw [h2, h3]
+  exact mapE_append_ok h1 hc
+
+/-- a measure that never grows, and shrinks wherever `Q` holds of the result -/
+theorem mapE_sum_le {α β : Type} {f : α → Except Err β} {m : α → Nat} {m' : β → Nat} {Q : β → Prop} :
+    ∀ {l : List α} {l' : List β}, mapE f l = .ok l' →
+      (∀ a ∈ l, ∀ b, f a = .ok b → m' b ≤ m a ∧ (Q b → m' b < m a)) →
+      (l'.map m').sum ≤ (l.map m).sum ∧ ((∃ b ∈ l', Q b) → (l'.map m').sum < (l.map m).sum)
+  | [], l', h, _ => by
+    unfold mapE at h; injection h with h; subst h; simp
+  | a :: as, l', h, H => by
+    obtain ⟨b, bs, hb, hbs, rfl⟩ := mapE_cons_ok h
+    obtain ⟨i1, i2⟩ := mapE_sum_le (l := as) hbs (fun x hx => H x (List.mem_cons_of_mem _ hx))
+    obtain ⟨a1, a2⟩ := H a (by simp) b hb
+    simp only [List.map_cons, List.sum_cons]
+    refine ⟨by omega, ?_⟩
+    rintro ⟨x, hx, hq⟩
+    rcases List.mem_cons.mp hx with e | e
+    · subst e; have := a2 hq; omega
+    · have := i2 ⟨x, e, hq⟩; omega
+
+theorem minWith_le_init : ∀ (l : List Int) (t : Int), minWith t l ≤ t
+  | [], t => by simp [minWith]
+  | a :: l, t => by
+    have := minWith_le_init l (min t a)
+    simp only [minWith, List.foldl_cons] at this ⊢
+    omega
+
+theorem minWith_le_mem : ∀ (l : List Int) (t : Int), ∀ x ∈ l, minWith t l ≤ x
+  | [], _, x, hx => by simp at hx
+  | a :: l, t, x, hx => by
+    simp only [minWith, List.foldl_cons]
+    rcases List.mem_cons.mp hx with e | e
+    · subst e
+      have := minWith_le_init l (min t x)
+      simp only [minWith] at this
+      omega
+    · exact minWith_le_mem l (min t a) x e
+
+theorem le_minWith : ∀ (l : List Int) (t T : Int), T ≤ t → (∀ x ∈ l, T ≤ x) → T ≤ minWith t l
+  | [], t, T, h, _ => by simpa [minWith] using h
+  | a :: l, t, T, h, H => by
+    simp only [minWith, List.foldl_cons]
+    have ha := H a (by simp)
+    exact le_minWith l (min t a) T (by omega) (fun x hx => H x (List.mem_cons_of_mem _ hx))
+
+theorem allEq_of_all_eq {α : Type} [BEq α] [LawfulBEq α] {l : List α} {a : α} (h : ∀ x ∈ l, x = a) :
+    allEq l = true := by
+  cases l with
+  | nil => rfl
+  | cons b rest =>
+    have hb : b = a := h b (by simp)
+    subst hb
+    simp only [allEq, List.all_eq_true, beq_iff_eq]
+    intro x hx
+    exact h x (List.mem_cons_of_mem _ hx)
+
+/-! ### the re-trim loop: preservation, and termination by a measure -/
+
+theorem retrim_good {rid : String} : ∀ {n : Nat} {t : Int} {z z' : Zip (Chunk × DepState)},
+    (∀ p ∈ z.toList, GoodPair rid p) → retrim n t z = .ok z' →
+      (∀ p ∈ z'.toList, GoodPair rid p) ∧
+      z'.toList.map (fun p => endOf p.2.buf p.2.rem) = z.toList.map (fun p => endOf p.2.buf p.2.rem) ∧
+      z'.toList.map (fun p => p.2.rem) = z.toList.map (fun p => p.2.rem) ∧
+      (allEq (inputEnds z) = true → z' = z)
+  | 0, _, _, _, _, h => by unfold retrim at h; cases h
+  | n + 1, t, z, z', hg, h => by
+    unfold retrim at h
+    dsimp only at h
+    split at h
+    · injection h with h; subst h
+      exact ⟨hg, rfl, rfl, fun _ => rfl⟩
+    · rename_i hne
+      split at h
+      · cases h
+      · rename_i z1 hz1
+        have g1 := Zip.mapE_ok_forall (P := GoodPair rid)
+          (fun _ a ha _ hb => (trimDep_good (hg a ha) hb).1) hz1
+        have e1 := Zip.mapE_ok_map (g := fun p => endOf p.2.buf p.2.rem) (k := fun p => endOf p.2.buf p.2.rem)
+          (fun _ a ha _ hb => (trimDep_good (hg a ha) hb).2.1) hz1
+        have e2 := Zip.mapE_ok_map (g := fun p => p.2.rem) (k := fun p => p.2.rem)
+          (fun _ a ha _ hb => (trimDep_good (hg a ha) hb).2.2.1) hz1
+        obtain ⟨i1, i2, i3, _⟩ := retrim_good g1 h
+        exact ⟨i1, i2.trans e1, i3.trans e2, fun he => absurd he hne⟩
+
+/-- total number of rows in the inputs: the measure of the re-trim loop -/
+def inRows (z : Zip (Chunk × DepState)) : Nat := (z.toList.map (fun p => p.1.rows.length)).sum
+
+/-- The re-trim loop terminates: every pass that does not end with all inputs ending together has
+moved at least one input to an earlier row boundary, i.e. taken at least one row out of the inputs.
+`inRows z + 2` passes always suffice (the code has ten). -/
+theorem retrim_total {rid : String} {T : Int} : ∀ {n : Nat} {t : Int} {z : Zip (Chunk × DepState)},
+    (∀ p ∈ z.toList, GoodPair rid p) → (∀ p ∈ z.toList, p.1.start = T) → T ≤ t → inRows z + 2 ≤ n →
+      ∃ z', retrim n t z = .ok z'
+  | 0, _, _, _, _, _, hn => by omega
+  | n + 1, t, z, hg, hT, htT, hn => by
+    unfold retrim
+    dsimp only
+    split
+    · exact ⟨z, rfl⟩
+    · rename_i hne
+      have hstart_le : ∀ p ∈ z.toList, T ≤ p.1.stop := by
+        intro p hp
+        have := (good_range (law_head (hg p hp).1)).2
+        have := hT p hp
+        omega
+      have ht'T : T ≤ minWith t (inputEnds z) := by
+        apply le_minWith _ _ _ htT
+        intro x hx
+        obtain ⟨p, hp, rfl⟩ := List.mem_map.mp hx
+        exact hstart_le p hp
+      have ht'le : ∀ p ∈ z.toList, minWith t (inputEnds z) ≤ p.1.stop :=
+        fun p hp => minWith_le_mem _ _ _ (List.mem_map.mpr ⟨p, hp, rfl⟩)
+      -- one pass never fails on good pairs
+      obtain ⟨z1, hz1⟩ := Zip.mapE_total (f := trimDep (minWith t (inputEnds z))) (z := z) (by
+        intro fl p hp
+        obtain ⟨g0, a1, a2, a3, hl'⟩ := law_cons_cons.1 (hg p hp).1
+        obtain ⟨c1, c2, hsp⟩ := split_early_total (minWith t (inputEnds z)) g0
+        obtain ⟨_, g2, _, _, p3, _, p5, _, p7, _, _⟩ := split_good' g0 hsp
+        obtain ⟨c, hc⟩ := concat_total g2 (law_head hl') (by rw [p3, a1]) (by rw [p5, a2]) (by rw [p7, a3])
+        exact ⟨(c1, ⟨p.2.dep, p.2.rem, c⟩), by unfold trimDep; rw [hsp]; dsimp only; rw [hc]⟩)
+      rw [hz1]
+      dsimp only
+      have g1 := Zip.mapE_ok_forall (P := GoodPair rid)
+        (fun _ a ha _ hb => (trimDep_good (hg a ha) hb).1) hz1
+      have s1 := Zip.mapE_ok_forall (P := fun p => p.1.start = T)
+        (fun _ a ha b hb => by rw [(trimDep_ok hb).2.1]; exact hT a ha) hz1
+      have hlist := Zip.mapE_toList (fun _ => rfl) hz1
+      obtain ⟨m1, m2⟩ := mapE_sum_le (m := fun p => p.1.rows.length) (m' := fun p => p.1.rows.length)
+        (Q := fun p => p.1.stop < minWith t (inputEnds z)) hlist (by
+          intro a ha b hb
+          obtain ⟨_, _, _, l1, l2⟩ := trimDep_good (hg a ha) hb
+          refine ⟨l1, fun hq => ?_⟩
+          rcases l2 (by rw [hT a ha]; exact ht'T) (ht'le a ha) with e | e
+          · omega
+          · exact e.2)
+      by_cases heq : allEq (inputEnds z1) = true
+      · -- all inputs end together now: the next check succeeds (n ≥ 1)
+        cases n with
+        | zero => omega
+        | succ k => exact ⟨z1, by unfold retrim; dsimp only; rw [if_pos heq]⟩
+      · -- some input ends before `t'`: it lost a row, so the measure dropped
+        have hex : ∃ b ∈ z1.toList, b.1.stop < minWith t (inputEnds z) := by
+          apply Classical.byContradiction
+          intro hno
+          apply heq
+          apply allEq_of_all_eq (a := minWith t (inputEnds z))
+          intro x hx
+          obtain ⟨b, hb, rfl⟩ := List.mem_map.mp hx
+          -- b came from some a: its end is t' or smaller
+          obtain ⟨a, ha, hab⟩ : ∃ a ∈ z.toList, trimDep (minWith t (inputEnds z)) false a = .ok b := by
+            have := mapE_ok_forall (f := trimDep (minWith t (inputEnds z)) false)
+              (P := fun b => ∃ a ∈ z.toList, trimDep (minWith t (inputEnds z)) false a = .ok b)
+              (fun a ha b hb => ⟨a, ha, hb⟩) hlist
+            exact this b hb
+          obtain ⟨_, _, _, _, l2⟩ := trimDep_good (hg a ha) hab
+          rcases l2 (by rw [hT a ha]; exact ht'T) (ht'le a ha) with e | e
+          · exact e
+          · exact absurd ⟨b, hb, e.1⟩ hno
+        have hlt := m2 hex
+        exact retrim_total g1 s1 ht'T (by unfold inRows at hn ⊢; omega)
+
+/-! ### zipper steps whose pacemaker branch needs its own argument -/
+
+theorem Zip.mapE_ok_forall2 {α β : Type} {f : Bool → α → Except Err β} {P : β → Prop}
+    {z : Zip α} {z' : Zip β} (Hf : ∀ a ∈ z.toList, ∀ b, f false a = .ok b → P b)
+    (Ht : ∀ b, f true z.pm = .ok b → P b) (h : z.mapE f = .ok z') : ∀ b ∈ z'.toList, P b := by
+  obtain ⟨h1, h2, h3⟩ := Zip.mapE_ok h
+  have e1 := Align.mapE_ok_forall (P := P)
+    (fun a ha b hb => Hf a (Zip.mem_toList.mpr (Or.inl ha)) b hb) h1
+  have e3 := Align.mapE_ok_forall (P := P)
+    (fun a ha b hb => Hf a (Zip.mem_toList.mpr (Or.inr (Or.inr ha))) b hb) h3
+  intro b hb
+  rcases Zip.mem_toList.mp hb with h | h | h
+  · exact e1 b h
+  · subst h; exact Ht _ h2
+  · exact e3 b h
+
+theorem Zip.mapE_ok_map2 {α β γ : Type} {f : Bool → α → Except Err β} {g : β → γ} {k : α → γ}
+    {z : Zip α} {z' : Zip β} (Hf : ∀ a ∈ z.toList, ∀ b, f false a = .ok b → g b = k a)
+    (Ht : ∀ b, f true z.pm = .ok b → g b = k z.pm) (h : z.mapE f = .ok z') :
+    z'.toList.map g = z.toList.map k := by
+  obtain ⟨h1, h2, h3⟩ := Zip.mapE_ok h
+  have e1 := Align.mapE_ok_map (g := g) (k := k)
+    (fun a ha b hb => Hf a (Zip.mem_toList.mpr (Or.inl ha)) b hb) h1
+  have e3 := Align.mapE_ok_map (g := g) (k := k)
+    (fun a ha b hb => Hf a (Zip.mem_toList.mpr (Or.inr (Or.inr ha))) b hb) h3
+  simp [Zip.toList, e1, Ht _ h2, e3]
+
+theorem Zip.mapE_total2 {α β : Type} {f : Bool → α → Except Err β} {z : Zip α}
+    (Hf : ∀ a ∈ z.toList, ∃ b, f false a = .ok b) (Ht : ∃ b, f true z.pm = .ok b) :
+    ∃ z', z.mapE f = .ok z' := by
+  obtain ⟨pre, h1⟩ := Align.mapE_total (f := f false) (l := z.pre)
+    (fun a ha => Hf a (Zip.mem_toList.mpr (Or.inl ha)))
+  obtain ⟨pm, h2⟩ := Ht
+  obtain ⟨post, h3⟩ := Align.mapE_total (f := f false) (l := z.post)
+    (fun a ha => Hf a (Zip.mem_toList.mpr (Or.inr (Or.inr ha))))
+  exact ⟨⟨pre, pm, post⟩, by unfold Zip.mapE; rw [h1, h2, h3]⟩
+
+/-! ### one iteration on good states -/
+
+theorem goodState_of_pair {rid : String} {p : Chunk × DepState} (h : GoodPair rid p) : GoodState rid p.2 := by
+  obtain ⟨_, _, _, a3, hl⟩ := law_cons_cons.1 h.1
+  exact ⟨hl, by rw [← a3]; exact h.2⟩
+
+/-- every row handed over in this call lies inside the call's range and has positive duration -/
+def Call.Inside (c : Call) : Prop :=
+  c.start ≤ c.stop ∧ ∀ rows ∈ c.rows, ∀ r ∈ rows, c.start ≤ r.time ∧ r.time < r.endt ∧ r.endt ≤ c.stop
+
+/-- validity is preserved by a successful iteration, and what is handed over lies inside the call -/
+theorem iterBody_good {rid : String} {n : Nat} {strict : Bool} {z z' : Zip DepState} {call : Call} {T : Int}
+    (hg : ∀ s ∈ z.toList, GoodState rid s) (hT : ∀ s ∈ z.toList, s.buf.start = T)
+    (h : iterBody n strict z = .ok (call, z')) :
+    (∀ s ∈ z'.toList, GoodState rid s) ∧ call.Inside ∧ call.start ≤ call.stop ∧
+      z'.toList.map (fun s => endOf s.buf s.rem) = z.toList.map (fun s => endOf s.buf s.rem) ∧
+      ((∀ s ∈ z.toList, LastPos s.rem) → ∀ s ∈ z'.toList, LastPos s.rem) := by
+  obtain ⟨z0, zi, hz0, hzi, b⟩ := iterBody_ok' h
+  have g0 : ∀ p ∈ z0.toList, GoodPair rid p :=
+    Zip.mapE_ok_forall2 (P := GoodPair rid)
+      (fun a ha b hb => (prepDep_good (inp := b.1) (s' := b.2) (hg a ha) (by simp) hb).1)
+      (fun b hb => (prepDep_good (inp := b.1) (s' := b.2) (hg _ (Zip.mem_toList.mpr (Or.inr (Or.inl rfl))))
+        (fun _ => rfl) hb).1) hz0
+  have e0 : z0.toList.map (fun p => endOf p.2.buf p.2.rem) = z.toList.map (fun s => endOf s.buf s.rem) :=
+    Zip.mapE_ok_map2 (g := fun p => endOf p.2.buf p.2.rem) (k := fun s => endOf s.buf s.rem)
+      (fun a ha b hb => (prepDep_good (inp := b.1) (s' := b.2) (hg a ha) (by simp) hb).2.1)
+      (fun b hb => (prepDep_good (inp := b.1) (s' := b.2) (hg _ (Zip.mem_toList.mpr (Or.inr (Or.inl rfl))))
+        (fun _ => rfl) hb).2.1) hz0
+  obtain ⟨gi, ei, ri, _⟩ := retrim_good g0 hzi
+  obtain ⟨a1, a2, a3⟩ := b.adjacent hT
+  have hle : call.start ≤ call.stop := by
+    obtain ⟨p, hp⟩ := List.exists_mem_of_ne_nil _ b.nonempty
+    have hrange := a3 (p.1.start, p.1.stop) (by rw [b.ranges]; exact List.mem_map.mpr ⟨p, hp, rfl⟩)
+    simp only [Prod.mk.injEq] at hrange
+    have := (good_range (law_head (gi p hp).1)).2
+    omega
+  refine ⟨?_, ⟨hle, ?_⟩, ?_, ?_, ?_⟩
+  · intro s hs
+    rw [b.next] at hs
+    obtain ⟨p, hp, rfl⟩ := List.mem_map.mp hs
+    exact goodState_of_pair (gi p hp)
+  · intro rows hrows r hr
+    rw [b.rows] at hrows
+    obtain ⟨p, hp, rfl⟩ := List.mem_map.mp hrows
+    have hrange := a3 (p.1.start, p.1.stop) (by rw [b.ranges]; exact List.mem_map.mpr ⟨p, hp, rfl⟩)
+    simp only [Prod.mk.injEq] at hrange
+    have := good_rows_in (law_head (gi p hp).1) r hr
+    rw [← hrange.1, ← hrange.2]; exact this
+  · exact hle
+  · rw [b.next, List.map_map]
+    exact ei.trans e0
+  · intro hlp s hs
+    rw [b.next] at hs
+    obtain ⟨p, hp, rfl⟩ := List.mem_map.mp hs
+    -- the unfetched chunks of p come from some state of z0 (unchanged by the re-trim loop)
+    have hmem : p.2.rem ∈ zi.toList.map (fun p => p.2.rem) := List.mem_map.mpr ⟨p, hp, rfl⟩
+    rw [ri] at hmem
+    obtain ⟨q, hq, hqe⟩ := List.mem_map.mp hmem
+    rw [← hqe]
+    have l0 : ∀ q ∈ z0.toList, LastPos q.2.rem :=
+      Zip.mapE_ok_forall2 (P := fun q => LastPos q.2.rem)
+        (fun a ha b hb => (prepDep_good (inp := b.1) (s' := b.2) (hg a ha) (by simp) hb).2.2.1 (hlp a ha))
+        (fun b hb => (prepDep_good (inp := b.1) (s' := b.2) (hg _ (Zip.mem_toList.mpr (Or.inr (Or.inl rfl))))
+          (fun _ => rfl) hb).2.2.1 (hlp _ (Zip.mem_toList.mpr (Or.inr (Or.inl rfl))))) hz0
+    exact l0 q hq
+
 end Strax.Align
